@@ -6,7 +6,7 @@ import ast
 import builtins
 import fnmatch
 
-from .core import FunctionInfo, Repo, unparse
+from .core import FunctionInfo, Repo, unparse, walk_no_nested
 from .ownership import owned
 from .report import Ctx
 
@@ -188,8 +188,65 @@ def names_rule(ctx: Ctx) -> None:
         if rel:
             hits += 1
             ctx.fail(f"{m.where}:self.{attr}", f"`self.{attr}` is read but no method of the class (or of its bases) ever assigns it: AttributeError on the first use")
+    for fn, text in discarded_exceptions(ctx.repo):
+        # an error that is built and dropped is a failure the run does not report: C14 owns every such statement, the other properties
+        # the ones inside their own mechanism
+        rel = ctx.prop == "C14" or owned(ctx.prop, fn.fq) or any(fnmatch.fnmatchcase(fn.fq, pat) and ctx.prop in props for pat, props in EXTRA_SCOPE.items())
+        if rel:
+            hits += 1
+            ctx.fail(f"{fn.where}:{text[:40]}", f"`{text[:70]}` builds an exception and drops it (the `raise` is missing): the condition it reports is silently accepted")
+    for fn, text in discarded_checks(ctx.repo):
+        rel = ctx.prop == "C14" or owned(ctx.prop, fn.fq) or any(fnmatch.fnmatchcase(fn.fq, pat) and ctx.prop in props for pat, props in EXTRA_SCOPE.items())
+        if rel:
+            hits += 1
+            ctx.fail(f"{fn.where}:{text[:40]}", f"`{text[:70]}` asks whether the token is the expected one and ignores the answer (expect_token raises; accept_token only "
+                     "returns a bool): a wrong token is silently accepted")
     if not hits:
-        ctx.ok("a816:locals-bound", "every name and every own attribute read in this property's functions is bound")
+        ctx.ok("a816:locals-bound", "every name and every own attribute read in this property's functions is bound; no exception is built and dropped; no token test is "
+               "evaluated and ignored")
+
+
+def discarded_checks(repo: Repo) -> list[tuple[FunctionInfo, str]]:
+    """expression statements that call one of the parser's side-effect-free token predicates (functions of the package named accept_token* that
+    return a bool and do not consume) and drop the result"""
+    preds = set()
+    for fn in repo.all_functions():
+        if fn.cls is None and fn.name.startswith("accept_token"):
+            rets = [r for r in walk_no_nested(fn.node) if isinstance(r, ast.Return)]
+            consumes = any(isinstance(c, ast.Call) and isinstance(c.func, ast.Attribute) and c.func.attr in ("next", "pop") for c in ast.walk(fn.node))
+            if rets and not consumes:
+                preds.add(fn.name)
+    out: list[tuple[FunctionInfo, str]] = []
+    for fn in repo.all_functions():
+        for st in walk_no_nested(fn.node):
+            if isinstance(st, ast.Expr) and isinstance(st.value, ast.Call) and isinstance(st.value.func, ast.Name) and st.value.func.id in preds:
+                out.append((fn, unparse(st)))
+    return out
+
+
+def discarded_exceptions(repo: Repo) -> list[tuple[FunctionInfo, str]]:
+    """expression statements that only construct an exception: `SomeError("...")` where SomeError is an exception class of the package (by
+    its bases) or a built-in exception"""
+    import builtins
+
+    exc_names = {n for n in dir(builtins) if isinstance(getattr(builtins, n), type) and issubclass(getattr(builtins, n), BaseException)}
+    changed = True
+    classes = list(repo.all_classes())
+    while changed:
+        changed = False
+        for c in classes:
+            if c.name not in exc_names and any(b.split(".")[-1] in exc_names for b in c.base_names):
+                exc_names.add(c.name)
+                changed = True
+    out: list[tuple[FunctionInfo, str]] = []
+    for fn in repo.all_functions():
+        for st in walk_no_nested(fn.node):
+            if isinstance(st, ast.Expr) and isinstance(st.value, ast.Call):
+                f = st.value.func
+                nm = f.id if isinstance(f, ast.Name) else (f.attr if isinstance(f, ast.Attribute) else None)
+                if nm in exc_names:
+                    out.append((fn, unparse(st)))
+    return out
 
 
 def possibly_unbound(repo: Repo) -> list[tuple[FunctionInfo, str, str]]:
